@@ -48,7 +48,7 @@ RSNInformation::RSNInformation()
 }
 
 RSNInformation::RSNInformation(const serialization_type& buffer) {
-    init(&buffer[0], static_cast<uint32_t>(buffer.size()));
+    init(buffer.empty() ? 0 : &buffer[0], static_cast<uint32_t>(buffer.size()));
 }
 
 RSNInformation::RSNInformation(const uint8_t* buffer, uint32_t total_sz) {
